@@ -123,6 +123,10 @@ def handle (j : Json) : Json :=
   | "pybind" =>
     let s := parseSig (obj j "sig")
     jopt jnat (pyBind s ((arr j "prev").map parseCArg) (parseCArg (obj j "cur")))
+  | "pybound" =>
+    -- the Python side of bound_eq_pyBound: parameters of `inspect.signature` of the bound method
+    let s := parseSig (obj j "sig")
+    jopt (fun (s' : Sig) => jarr (s'.params.map fun n => jarr [jchars n.name, jnat n.kind.toNat])) (pyBound s)
   | "doc" =>
     jchars (docAssemble (joinLines ((strs j "sigs").map String.toList)) (chars j "doc"))
   | op => jobj [("error", jstr ("unknown op " ++ op))]
